@@ -80,7 +80,7 @@ fn subst(tpl: &str, id: usize, t: Option<usize>, u: Option<usize>) -> String {
     s
 }
 
-fn dags(tier: Tier) -> Vec<Dag> {
+fn dags(tier: Tier, deep: bool) -> Vec<Dag> {
     let mut v = Vec::new();
     // n = 2 : root x form
     for (rn, r) in ROOTS {
@@ -124,7 +124,7 @@ fn dags(tier: Tier) -> Vec<Dag> {
         }
     }
     // n = 4 chains and diamonds over a few forms
-    let sel: Vec<usize> = tier.pick(vec![0, 1, 3, 7], vec![0, 1, 2, 3, 4, 7, 10, 12, 17]);
+    let sel: Vec<usize> = if deep { (0..FORMS1.len()).collect() } else { tier.pick(vec![0, 1, 3, 7], vec![0, 1, 2, 3, 4, 7, 10, 12, 17]) };
     for &a in &sel {
         for &b in &sel {
             for &c in &sel {
@@ -162,6 +162,36 @@ fn dags(tier: Tier) -> Vec<Dag> {
                     ],
                     unsat: None,
                 });
+            }
+        }
+    }
+    if deep {
+        // n = 5 over 5 forms in every position x 4 shapes (chain, star, binary tree, comb): all 120 orders each
+        let f5 = [0usize, 1, 3, 7, 12];
+        for &a in &f5 {
+            for &b in &f5 {
+                for &c in &f5 {
+                    for &d in &f5 {
+                        for shape in 0..4 {
+                            let (t1, t2, t3, t4) = match shape {
+                                0 => (0, 1, 2, 3),
+                                1 => (0, 0, 0, 0),
+                                2 => (0, 0, 1, 1),
+                                _ => (0, 1, 1, 3),
+                            };
+                            v.push(Dag {
+                                nodes: vec![
+                                    Node { src: subst(ROOTS[1].1, 0, None, None), label: ROOTS[1].0.to_string() },
+                                    Node { src: subst(FORMS1[a].1, 1, Some(t1), None), label: FORMS1[a].0.into() },
+                                    Node { src: subst(FORMS1[b].1, 2, Some(t2), None), label: FORMS1[b].0.into() },
+                                    Node { src: subst(FORMS1[c].1, 3, Some(t3), None), label: FORMS1[c].0.into() },
+                                    Node { src: subst(FORMS1[d].1, 4, Some(t4), None), label: FORMS1[d].0.into() },
+                                ],
+                                unsat: None,
+                            });
+                        }
+                    }
+                }
             }
         }
     }
@@ -374,8 +404,12 @@ fn check(d: &Dag, nested: bool, tight: bool) -> CaseResult {
 
 pub fn run(tier: Tier) -> i32 {
     let mut rep = Report::new("C10", tier, "model_checking");
-    let ds = dags(tier);
-    rep.set("rule", json!("Reference DAGs on n = 2..4 (thorough: 5) labelled sibling elements: every root spelling (xy+wh, longhand, no position, circle, ellipse, line) x every single-target reference form (20: |h/|v/|H/|V with gap, @loc, cxy, wh=#t, scalar refs, expression scalar, surround, inside, connector, use, text, relative size, points, dxy, xy-loc, per-axis, dw/dh) x every second form and target, two-target forms (connectors, surround of two, mixed axes), chains/stars/diamonds of 4, each rendered in ALL n! document orders (the schedules of the retry loop), plain and with the first element wrapped in <g>, under the default limits and under depth-limit 6 (just enough for the document, so residue of failed attempts becomes visible). State = (DAG, order); transition = one execution. Invariant: all orders agree on success, and on success every id has identical output (element name, all attributes, generated text) and the root extent is identical. Unsatisfiable variants (unknown id, 2-cycle, self reference, target without bounding box: empty g, defs, unitful rect, rect without size) must fail in every order. Non-trivial = all orders Ok (or an unsatisfiable variant failing everywhere)."));
+    // the quick tier explores what used to be the thorough space (it takes seconds); `deep` adds the wider bounds
+    #[allow(unused_variables)]
+    let deep = tier == Tier::Thorough;
+    let tier = Tier::Thorough;
+    let ds = dags(tier, deep);
+    rep.set("rule", json!("Reference DAGs on n = 2..4 labelled sibling elements (thorough tier: chains/stars/diamonds of 4 over ALL forms in every position, and n = 5 chains, stars, binary trees and combs over 5 forms in every position, all 120 orders each): every root spelling (xy+wh, longhand, no position, circle, ellipse, line) x every single-target reference form (20: |h/|v/|H/|V with gap, @loc, cxy, wh=#t, scalar refs, expression scalar, surround, inside, connector, use, text, relative size, points, dxy, xy-loc, per-axis, dw/dh) x every second form and target, two-target forms (connectors, surround of two, mixed axes), chains/stars/diamonds of 4, each rendered in ALL n! document orders (the schedules of the retry loop), plain and with the first element wrapped in <g>, under the default limits and under depth-limit 6 (just enough for the document, so residue of failed attempts becomes visible). State = (DAG, order); transition = one execution. Invariant: all orders agree on success, and on success every id has identical output (element name, all attributes, generated text) and the root extent is identical. Unsatisfiable variants (unknown id, 2-cycle, self reference, target without bounding box: empty g, defs, unitful rect, rect without size) must fail in every order. Non-trivial = all orders Ok (or an unsatisfiable variant failing everywhere)."));
     let st = run_space(ds.len() * 4, |i| check(&ds[i / 4], i % 2 == 1, (i / 2) % 2 == 1));
     rep.set("states", json!(st.evaluations));
     rep.set("transitions", json!(st.evaluations));
